@@ -35,10 +35,11 @@ func (o *optimizer) optimizeAllFiles(printer FilePrinter) {
 
 		// 1. optimize file
 		log.Printf("visit file: %s\n", f.Filename)
-		o.optimizeImports(f)
 		o.optimizeDelayCall()
 		// o.optimizeBindCall()
 		o.etaReduction()
+		// after the reductions: a removed literal may have been the last user of an import
+		o.optimizeImports(f)
 
 		// 2. write file
 		log.Printf("write file: %s\n", f.Filename)
